@@ -254,6 +254,7 @@ func TestC01(t *testing.T) {
 			"intent2":         h.ActIntent,
 			"intent3":         h.ActIntent,
 			"produce":         h.ActProduce,
+			"produceLazy":     h.ActProduceLazy,
 			"produce2":        h.ActProduce,
 		}, inv)
 		// drain: a few more momentums so that queued calls are received
